@@ -201,7 +201,7 @@ def classify_traceback(tb):
 # live host objects
 
 class Handle:
-    __slots__ = ('cid', 'spec', 'user', 'peer', 'instance', 'raised_before', 'calls', 'poked')
+    __slots__ = ('cid', 'spec', 'user', 'peer', 'instance', 'raised_before', 'calls', 'poked', 'last_error')
 
     def __init__(self, cid, spec):
         self.cid = cid
@@ -212,6 +212,10 @@ class Handle:
         self.raised_before = False
         self.calls = 0
         self.poked = None
+        # the host keeps the exception object of the last failed call (a status line, a log record):
+        # cleanup that only happens when the traceback is released has not happened yet when the next
+        # call is made (seeded change Y93-m1 restored `text` in the `finally:` of a suspended generator)
+        self.last_error = None
 
 
 def newline_of(spec, glob):
@@ -440,15 +444,18 @@ class Host:
             else:
                 outcome = ['ok', result]
         except PeerFault as err:
+            h.last_error = err
             info['fired'] = True
             info['stage'], info['window'] = classify_traceback(err.__traceback__)
             outcome = ['fault', 'F3']
         except (InjectedFault, InjectedInterrupt) as err:
+            h.last_error = err
             info['fired'] = True
             info['stage'], info['window'] = classify_traceback(err.__traceback__)
             info['where'] = list(tracer.where) if tracer is not None and tracer.where else None
             outcome = ['fault', 'F5']
         except RecursionError as err:
+            h.last_error = err
             info['stage'], info['window'] = classify_traceback(err.__traceback__)
             if old_limit is not None:
                 info['fired'] = True
@@ -456,6 +463,7 @@ class Host:
             else:
                 outcome = describe_exception(err)
         except Exception as err:  # noqa -- the library may raise anything
+            h.last_error = err
             info['stage'], info['window'] = classify_traceback(err.__traceback__)
             outcome = describe_exception(err)
             if fault and fault['kind'] in ('F3', 'F5'):
